@@ -300,13 +300,20 @@ def shrink(prop, hyp, case, budget=400):
         return bool(bad_outcomes(outs))
 
     cmds = list(case["cmds"])
+    keep = getattr(prop, "keep_cmd", None)      # protocol commands a case cannot do without
     tries = 0
     n = 2
     while len(cmds) >= 2 and tries < budget:
         chunk = max(1, len(cmds) // n)
         reduced = False
         for start in range(0, len(cmds), chunk):
-            cand = cmds[:start] + cmds[start + chunk:]
+            dropped = cmds[start:start + chunk]
+            if keep is not None:
+                cand = cmds[:start] + [c for c in dropped if keep(c)] + cmds[start + chunk:]
+                if len(cand) == len(cmds):
+                    continue
+            else:
+                cand = cmds[:start] + cmds[start + chunk:]
             if not cand:
                 continue
             tries += 1
